@@ -1,7 +1,9 @@
 #!/usr/bin/env python3
 """Mechanical mutants of the rule programs, as a catch-rate estimate for C04 / C13 next to the agent-made seeds.
 usage: mutants.py <count> <seed> [check ...]      (runs inside REPO = $VERIF_REPO or /repo; restores every file)
-Each mutant flips one operator inside a `fn validate_...` body of src/messages/mt*.rs; it is kept if the crate still
+       MUT_GLOB / MUT_FN select the files and functions (default: src/messages/mt*.rs, fn validate_...;
+       e.g. MUT_GLOB='src/fields/field*.rs' MUT_FN='fn parse' for the field parsers)
+Each mutant flips one operator inside a matching function body; it is kept if the crate still
 builds. A mutant counts as caught when one of the given quick checks exits 1."""
 import os, random, re, subprocess, sys, json, glob
 
@@ -13,13 +15,15 @@ FLIPS = [(" && ", " || "), (" || ", " && "), (" == ", " != "), (" != ", " == "),
 
 def sites():
     out = []
-    for path in sorted(glob.glob(os.path.join(REPO, "src/messages/mt*.rs"))):
+    for path in sorted(glob.glob(os.path.join(REPO, os.environ.get("MUT_GLOB", "src/messages/mt*.rs")))):
         lines = open(path).read().split("\n")
         infn = False
         depth = 0
         for i, l in enumerate(lines):
-            if re.search(r"fn validate_\w+", l):
+            if re.search(os.environ.get("MUT_FN", r"fn validate_\w+"), l):
                 infn, depth = True, 0
+            if "#[cfg(test)]" in l:
+                break
             if infn:
                 depth += l.count("{") - l.count("}")
                 s = l.strip()
@@ -65,6 +69,7 @@ def main():
     n = len(res)
     k = sum(1 for r in res if any(":" not in c for c in r["caught_by"]))
     print("mutants: %d built, %d caught, %d survived" % (n, k, n - k))
+    os.makedirs(os.path.join(ROOT, "work"), exist_ok=True)
     json.dump(res, open(os.path.join(ROOT, "work", "mutants_%d.json" % seed), "w"), indent=1)
 
 
